@@ -290,7 +290,8 @@ def write_source(spec, rows, tmpdir, via="stream", name="data"):
         # the way spreadsheet applications store a sheet: runs of equal rows and of equal cells are written once
         # ... and now and then the cells carry comments
         enc_ods.write(path, sheets, {} if fmt.get("ods_plain") else {"row_runs": True, "col_runs": True,
-                                                                      "annotations": len(rows) % 2 == 1})
+                                                                      "annotations": len(rows) % 2 == 1,
+                                                                      "subtables": len(rows) % 3 == 2})
         return path, name + ".ods"
     from vlib import enc_xlsx
 
